@@ -13,10 +13,18 @@ pub struct Adapter {
 impl Adapter {
     pub fn new(kv: &Kv) -> Adapter {
         let mut b = BulkheadLayer::builder().max_concurrent_calls(kv.u64("max", 1) as usize);
+        // builder setter order: `pre=reject` calls reject_when_full() BEFORE the wait is set (the wait wins),
+        // `post=reject` calls it AFTER (zero wait wins): the last setter decides
+        if kv.get("pre") == Some("reject") {
+            b = b.reject_when_full();
+        }
         if kv.get("wait") == Some("max") {
             b = b.max_wait_duration(Duration::MAX);
         } else if let Some(ms) = kv.opt_u64("wait") {
             b = b.max_wait_duration(Duration::from_millis(ms));
+        }
+        if kv.get("post") == Some("reject") {
+            b = b.reject_when_full();
         }
         let layer = b.build();
         Adapter { svc: layer.layer(Inner::new()), idle: Vec::new(), gone: false }
